@@ -60,14 +60,23 @@ func (w *World) jsonRolesOf(pull *ssa.Function) *jsonRoles {
 			if b, ok := res.At(0).Type().Underlying().(*types.Basic); ok && b.Kind() == types.Bool {
 				allInstrs(fn, func(in ssa.Instruction) {
 					if ret, ok := in.(*ssa.Return); ok {
-						if ld, ok := ret.Results[0].(*ssa.UnOp); ok {
-							if fa, ok := ld.X.(*ssa.FieldAddr); ok {
-								jr.getter[fn] = fieldName(fa)
+						// the returned value is (a conjunction ending in) the load of a bool field of a state
+						backSlice(ret.Results[0], func(v ssa.Value) bool {
+							if ld, ok := v.(*ssa.UnOp); ok && ld.Op == token.MUL {
+								if fa, ok := ld.X.(*ssa.FieldAddr); ok {
+									if b, isB := fa.Type().(*types.Pointer).Elem().Underlying().(*types.Basic); isB && b.Kind() == types.Bool {
+										jr.getter[fn] = fieldName(fa)
+									}
+								}
 							}
-						}
+							_, isCall := v.(*ssa.Call)
+							return !isCall
+						})
 					}
 				})
-			} else {
+			} else if b, ok := res.At(0).Type().Underlying().(*types.Basic); ok && b.Info()&types.IsInteger != 0 {
+				// the kind of the top state (an integer-kinded enumeration); helpers that hand out the state itself
+				// (a pointer) are not it
 				jr.current = fn
 			}
 		}
